@@ -361,15 +361,21 @@ def cli_case(case, env):
                      {"kind": "cli", "seed": case["seed"], "argv": sargs})
     # line terminators other than LF: the blocks and what stands between them
     # must not depend on the thread count either
-    tname = rng.pick(["crlf", "nul"])
-    term = b"\r\n" if tname == "crlf" else b"\0"
+    tname = rng.pick(["crlf", "nul", "hyperlink"])
+    term = b"\r\n" if tname == "crlf" else (b"\0" if tname == "nul" else b"\n")
     t2 = os.path.join(env.tmp, "t2")
     os.makedirs(t2)
     for i in range(rng.range(4, 12)):
         lines = [(rng.pick(WORDS) + " %d" % j).encode() for j in range(rng.range(1, 30))]
         with open(os.path.join(t2, "g%02d.txt" % i), "wb") as f:
             f.write(term.join(lines) + term)
-    targs = ["--no-config", "--color", "never", "--heading", "-n"] + (["--crlf"] if tname == "crlf" else ["--null-data", "-a"])
+    if tname == "hyperlink":
+        # colours and hyperlinks forced although stdout is a pipe: the bytes of
+        # a block must not depend on which writer a thread count selects
+        targs = ["--no-config", "--color", "always", "--hyperlink-format", "file://{path}#{line}",
+                 rng.pick(["--heading", "--no-heading"]), "-n"] + rng.pick([[], ["-c"], ["-l"]])
+    else:
+        targs = ["--no-config", "--color", "never", "--heading", "-n"] + (["--crlf"] if tname == "crlf" else ["--null-data", "-a"])
     tref = common.run_rg(targs + ["-j1", "-e", "needle", "t2"], env.tmp, env.home, timeout=120)
     for n in rng.sample([2, 3, 4, 8, 16], 2):
         rep["evaluations"] += 1
@@ -379,14 +385,16 @@ def cli_case(case, env):
             continue
         env.count("rg_runs")
         env.count("terminator_runs_" + tname)
-        sep = b"\n" if tname == "crlf" else b"\0"
+        sep = b"\0" if tname == "nul" else b"\n"
         a = sorted(tref[1].split(sep))
         b = sorted(tgot[1].split(sep))
         if a == b and tref[0] == tgot[0]:
             continue
         # known shape: the line between two files' blocks is written with the
         # search's terminator by -j1 and always as a bare LF otherwise
-        if tname == "crlf":
+        if tname == "hyperlink":
+            same = False
+        elif tname == "crlf":
             norm = sorted(x if x != b"\r" else b"" for x in a)
             same = norm == b
         else:
